@@ -46,14 +46,37 @@ func (s *Status) UnmarshalText(b []byte) error {
 	if len(parts) != 3 {
 		return fmt.Errorf("webdav: invalid HTTP status %q: expected 3 fields", s)
 	}
+	if !isHTTPVersion(parts[0]) {
+		return fmt.Errorf("webdav: invalid HTTP status %q: expected an HTTP version", b)
+	}
 	code, err := strconv.Atoi(parts[1])
 	if err != nil {
 		return fmt.Errorf("webdav: invalid HTTP status %q: failed to parse code: %v", s, err)
+	}
+	if len(parts[1]) != 3 || code < 100 {
+		return fmt.Errorf("webdav: invalid HTTP status %q: expected a three-digit code", b)
 	}
 
 	s.Code = code
 	s.Text = parts[2]
 	return nil
+}
+
+// isHTTPVersion checks for "HTTP/" 1*DIGIT "." 1*DIGIT.
+func isHTTPVersion(s string) bool {
+	if !strings.HasPrefix(s, "HTTP/") {
+		return false
+	}
+	major, minor, ok := strings.Cut(strings.TrimPrefix(s, "HTTP/"), ".")
+	if !ok || major == "" || minor == "" {
+		return false
+	}
+	for _, ch := range major + minor {
+		if ch < '0' || ch > '9' {
+			return false
+		}
+	}
+	return true
 }
 
 func (s *Status) Err() error {
